@@ -609,6 +609,11 @@ def parallel(ctx):
     ok = names.count("push") == 1 and "entry" in names and \
         any(n in names for n in ("or_default", "or_insert_with", "or_insert"))
     bad = [n for n in names if n in ("insert", "clear", "truncate", "pop")]
+    ins = [(b, t) for b, t in fa.calls() if cname(t) == "insert"]
+    if not ok and names.count("push") == 1 and ("get_mut" in names) and len(ins) == 1 and \
+            _insert_only_when_absent(E, fa, ins[0][0], ins[0][1]):
+        ok = True            # append to the list that is there, insert a new list only when there is none
+        bad = [n for n in bad if n != "insert"]
     ctx.ob("PARALLEL", "add_record|homographs-appended", ok and not bad, fn_loc(crate, p),
            "rows sharing a surface are appended to that surface's id list" if ok and not bad else
            "add_record does not append to the existing id list (%s): homographs are lost" % names)
@@ -1589,6 +1594,36 @@ DROPPING = ("take", "skip", "step_by", "filter", "filter_map", "take_while", "sk
             "next", "peekable", "dedup", "chunks", "rev", "max", "min", "find", "position", "first")
 
 
+def _insert_only_when_absent(E, fa, ib, it):
+    """`map.insert(k, vec![id])` that can only run when the map was just found not to hold the key:
+    the insert sits on the None edge of a `match map.get_mut(..)` / `map.get(..)`, or on the false
+    edge of `map.contains_key(..)`, of the same map. It then replaces nothing."""
+    m_ap = E.ap_operand(fa, it["args"][0]) if it["args"] else None
+    if m_ap is None:
+        return False
+    for db in fa.dominators().get(ib, ()):
+        dt = fa.term(db)
+        if dt["k"] != "switch":
+            continue
+        o = fa.origin(dt["op"])
+        look = None
+        if o[0] == "rv" and o[1]["k"] == "discr":
+            lo = fa.origin({"c": {"l": o[1]["place"]["l"], "p": []}}) if not o[1]["place"]["p"] else ("?",)
+            if lo[0] == "call" and {strip_generics(x).rsplit("::", 1)[-1] for x in callee_paths(lo[2])} & {"get_mut", "get"}:
+                look = lo[2]
+                absent = dict(zip(dt["vals"], dt["targets"])).get(0, dt["otherwise"])
+                present = dict(zip(dt["vals"], dt["targets"])).get(1, dt["otherwise"])
+        elif o[0] == "call" and {strip_generics(x).rsplit("::", 1)[-1] for x in callee_paths(o[2])} & {"contains_key"}:
+            look = o[2]
+            from flow import bool_switch_targets as _b
+            absent, present = _b(dt)
+        if look is None or not look["args"] or E.ap_operand(fa, look["args"][0]) != m_ap:
+            continue
+        if ib in fa.reachable(absent, avoid={present}) and ib not in fa.reachable(present, avoid={absent}):
+            return True
+    return False
+
+
 def homograph_accumulate(ctx):
     """LEXMAP (homographs): `all rows sharing a surface are kept as distinct homographs`."""
     crate = ctx.facts("A").lib
@@ -1611,6 +1646,9 @@ def homograph_accumulate(ctx):
                 continue
             if nm == "entry":
                 nacc += 1
+                continue
+            if _insert_only_when_absent(E, gfa, gb, gt):
+                nacc += 1           # `match map.get_mut(k) { Some(ids) => ids.push(id), None => insert }`
                 continue
             ctx.ob("LEXMAP", "WordMapBuilder|homographs-accumulate|%s" % q.split("::")[-1], False, gfa.loc(gb),
                    "%s registers the ids of a surface with `insert`, which replaces the ids an earlier "
